@@ -176,7 +176,7 @@ def run(ck, options=None, variant='', underscore=False, tag=''):
             out = conv_output(conv[-1])          # the conversion whose output is used (a retry makes a second call)
             if asc:
                 a = asc[0][2]
-                if a[0] != out or a[1] != f'({out} + strlen#1)' or not p.calls('strlen') or p.calls('strlen')[0][2] != (out,):
+                if a[0] != out or a[1] != out_end(p, out) or not [c for c in p.calls('strlen') if c[2] == (out,)]:
                     why.append(f'is_ascii_domain applied to {a}, converter output is {out}')
                 if p.passed(f'({asc[0][3]} != EEAV_NO_ERROR)', True) and ret != asc[0][3]:
                     why.append(f'is_ascii_domain failure not returned unchanged (returns {ret})')
@@ -186,6 +186,12 @@ def run(ck, options=None, variant='', underscore=False, tag=''):
     ck.assume('the domain ends at the string terminator (byte at *end is NUL), as in every call made by the library')
     ck.assume('IDN converters return A-label output (libidn2/libidn/idnkit behaviour is not analysed)')
     ck.undecided('that the IDN library produces the right A-label (C10)')
+
+
+def out_end(p, out):
+    """the rendered end of the converter output: out + strlen(out), with whatever number the strlen call carries"""
+    sl = [c for c in p.calls('strlen') if c[2] == (out,)]
+    return f'({out} + {sl[0][3]})' if sl else f'({out} + strlen#1)'
 
 
 def conv_output(call):
